@@ -1,5 +1,24 @@
-//! C19 (b,c): several machines interleaved by a seeded scheduler over shared parser objects.
+//! C19 (b,c): several machines interleaved by a seeded scheduler over *shared* parser
+//! objects (one Preprocessor, DataParser, Interpreter, PrintParser for all of them), with
+//! parse-error injection and machine creation/destruction in between, compared with each
+//! machine alone on fresh objects. Optionally every machine lives on its own real thread
+//! and a baton decides who runs (real threads, simulator-chosen schedule).
+use crate::case::Violation;
+use crate::driver::interrupts::{int_13, int_21};
+use crate::driver::print::PrintParser;
+use crate::driver::sim_io::{self, Caller, Console};
+use crate::history::{MB, R_AX};
+use crate::rng::fnv1a;
+use crate::world::regs_of;
+use emulator_8086_lib::{
+    DataParser, Interpreter, InterpreterContext, LabelType, Preprocessor, PreprocessorContext,
+    PreprocessorOutput, State, VM,
+};
 use serde::{Deserialize, Serialize};
+use std::cell::RefCell;
+use std::collections::VecDeque;
+use std::rc::Rc;
+use std::sync::{Arc, Condvar, Mutex};
 
 #[derive(Clone, Debug, Serialize, Deserialize, PartialEq, Eq)]
 pub struct Machine {
@@ -28,4 +47,570 @@ pub struct MultiSpec {
     /// none | baton
     pub threads: String,
     pub fuel: u64,
+}
+
+pub struct Parsers {
+    pub pre: Preprocessor,
+    pub data: DataParser,
+    pub interp: Interpreter,
+    pub printer: PrintParser,
+}
+
+impl Parsers {
+    pub fn new() -> Parsers {
+        Parsers {
+            pre: Preprocessor::new(),
+            data: DataParser::new(),
+            interp: Interpreter::new(),
+            printer: PrintParser::new(),
+        }
+    }
+}
+
+struct MiniState {
+    records: String,
+    stdin: VecDeque<String>,
+}
+
+struct MiniConsole(Rc<RefCell<MiniState>>);
+
+impl Console for MiniConsole {
+    fn emit(&mut self, _module: &'static str, _line: u32, text: &str) {
+        self.0.borrow_mut().records.push_str(text);
+    }
+    fn flush(&mut self) -> std::io::Result<()> {
+        Ok(())
+    }
+    fn read_line(&mut self, _who: Caller, buf: &mut String) -> std::io::Result<usize> {
+        match self.0.borrow_mut().stdin.pop_front() {
+            Some(l) => {
+                buf.push_str(&l);
+                Ok(l.len())
+            }
+            None => Ok(0),
+        }
+    }
+    fn probe(&mut self, _idx: usize, _code: &str, _vm: &VM) -> bool {
+        false
+    }
+    fn exit(&mut self, _code: i32) {}
+}
+
+/// One machine: program, VM, context, position; stepped by the stub run loop below.
+pub struct Mach {
+    source: String,
+    state: Rc<RefCell<MiniState>>,
+    code: Vec<String>,
+    ictx: Option<InterpreterContext>,
+    vm: Option<VM>,
+    idx: usize,
+    pub done: bool,
+    pub steps: u64,
+    /// (idx, outcome, registers) per step
+    pub trace: Vec<(usize, String, [u16; 14])>,
+}
+
+#[derive(Clone, Debug, PartialEq, Eq)]
+pub struct MachResult {
+    pub trace: Vec<(usize, String, [u16; 14])>,
+    pub records: String,
+    pub mem_digest: u64,
+    pub final_regs: Option<[u16; 14]>,
+}
+
+fn split_lines(s: &str) -> VecDeque<String> {
+    let mut v = VecDeque::new();
+    let mut cur = String::new();
+    for ch in s.chars() {
+        cur.push(ch);
+        if ch == '\n' {
+            v.push_back(std::mem::take(&mut cur));
+        }
+    }
+    if !cur.is_empty() {
+        v.push_back(cur);
+    }
+    v
+}
+
+impl Mach {
+    pub fn new(m: &Machine) -> Mach {
+        Mach {
+            source: m.source.clone(),
+            state: Rc::new(RefCell::new(MiniState { records: String::new(), stdin: split_lines(&m.stdin) })),
+            code: vec![],
+            ictx: None,
+            vm: None,
+            idx: 0,
+            done: false,
+            steps: 0,
+            trace: vec![],
+        }
+    }
+
+    /// the stub of the driver's preparation: comment stripping, assemble, label check, data load
+    fn setup(&mut self, p: &Parsers) {
+        let re = regex::Regex::new(r";.*\n?").unwrap();
+        let unc = re.replace_all(&self.source, "\n").to_string();
+        let mut ctx = PreprocessorContext::default();
+        let mut out = PreprocessorOutput::default();
+        if let Err(e) = p.pre.parse(&mut ctx, &mut out, &unc) {
+            self.trace.push((0, format!("assemble error {}", e), [0; 14]));
+            self.done = true;
+            return;
+        }
+        let start = match ctx.label_map.get("start") {
+            Some(l) => match l.get_type() {
+                LabelType::CODE => l.map,
+                LabelType::DATA => {
+                    self.done = true;
+                    return;
+                }
+            },
+            None => {
+                self.done = true;
+                return;
+            }
+        };
+        let mut vm = VM::new();
+        let mut ctr = 0;
+        for d in out.data.iter() {
+            if let Err(e) = p.data.parse(&mut vm, &mut ctr, d) {
+                self.trace.push((0, format!("data error {}", e), [0; 14]));
+                self.done = true;
+                return;
+            }
+        }
+        vm.arch.ds = 0;
+        out.code.push("hlt".to_owned());
+        self.code = out.code;
+        self.ictx = Some(InterpreterContext {
+            fn_map: ctx.fn_map,
+            label_map: ctx.label_map,
+            call_stack: Vec::new(),
+        });
+        self.vm = Some(vm);
+        self.idx = start;
+    }
+
+    /// one step of the stub run loop (the driver's State dispatch without prompts)
+    pub fn step(&mut self, p: &Parsers) {
+        if self.done {
+            return;
+        }
+        let prev = sim_io::install(Box::new(MiniConsole(self.state.clone())));
+        let r = std::panic::catch_unwind(std::panic::AssertUnwindSafe(|| self.step_inner(p)));
+        let mine = sim_io::uninstall();
+        drop(mine);
+        if let Some(c) = prev {
+            sim_io::install(c);
+        }
+        if r.is_err() {
+            let site = crate::world::take_last_panic()
+                .map(|(_, f, l)| format!("{}:{}", crate::oracle::short_file(&f), l))
+                .unwrap_or_default();
+            let regs = self.vm.as_ref().map(regs_of).unwrap_or([0; 14]);
+            self.trace.push((self.idx, format!("panic {}", site), regs));
+            self.done = true;
+        }
+    }
+
+    fn step_inner(&mut self, p: &Parsers) {
+        if self.vm.is_none() {
+            self.setup(p);
+            return;
+        }
+        self.steps += 1;
+        let vm = self.vm.as_mut().unwrap();
+        let ictx = self.ictx.as_mut().unwrap();
+        let idx = self.idx;
+        if idx >= self.code.len() {
+            self.done = true;
+            return;
+        }
+        let line = self.code[idx].clone();
+        let outcome;
+        match p.interp.parse(idx, vm, ictx, &line) {
+            Err(e) => {
+                outcome = format!("error {}", e);
+                self.done = true;
+            }
+            Ok(s) => {
+                outcome = format!("{:?}", s);
+                match s {
+                    State::HALT => self.done = true,
+                    State::PRINT => {
+                        if p.printer.parse(vm, &line).is_err() {
+                            self.done = true;
+                        }
+                        self.idx += 1;
+                    }
+                    State::JMP(n) => self.idx = n,
+                    State::NEXT => self.idx += 1,
+                    State::REPEAT => {}
+                    State::INT(n) => match n {
+                        0 => self.done = true,
+                        3 => self.idx += 1,
+                        0x10 => {
+                            let ah = (vm.arch.ax >> 8) as u8;
+                            if ah != 0x0a && ah != 0x13 {
+                                self.done = true;
+                            } else {
+                                int_13(vm, ah);
+                                self.idx += 1;
+                            }
+                        }
+                        0x21 => {
+                            let ah = (vm.arch.ax >> 8) as u8;
+                            if ah != 1 && ah != 2 && ah != 0x0a {
+                                self.done = true;
+                            } else {
+                                int_21(vm, ah);
+                                self.idx += 1;
+                            }
+                        }
+                        _ => self.done = true,
+                    },
+                }
+            }
+        }
+        let regs = regs_of(self.vm.as_ref().unwrap());
+        self.trace.push((idx, outcome, regs));
+    }
+
+    pub fn result(&self) -> MachResult {
+        MachResult {
+            trace: self.trace.clone(),
+            records: self.state.borrow().records.clone(),
+            mem_digest: self.vm.as_ref().map(|v| fnv1a(&v.mem[..])).unwrap_or(0),
+            final_regs: self.vm.as_ref().map(regs_of),
+        }
+    }
+}
+
+/// each machine alone, on fresh parser objects
+pub fn run_solo(m: &Machine, fuel: u64) -> MachResult {
+    let p = Parsers::new();
+    let mut mach = Mach::new(m);
+    let mut n = 0;
+    while !mach.done && n < fuel {
+        mach.step(&p);
+        n += 1;
+    }
+    mach.result()
+}
+
+fn pristine(vm: &VM) -> Result<(), String> {
+    let r = regs_of(vm);
+    for (i, v) in r.iter().enumerate() {
+        let want = match i {
+            0 => 0xF000,
+            10 => 0xFFFF,
+            _ => 0,
+        };
+        if *v != want {
+            return Err(format!("{} = {:04X}", crate::history::REG_NAMES[i], v));
+        }
+    }
+    if let Some(p) = vm.mem.iter().position(|b| *b != 0) {
+        return Err(format!("memory[{:#x}] = {:#04x}", p, vm.mem[p]));
+    }
+    Ok(())
+}
+
+/// result of parsing one line through a set of parser objects, as a comparable string
+fn poison(p: &Parsers, text: &str) -> String {
+    let r = std::panic::catch_unwind(std::panic::AssertUnwindSafe(|| {
+        let mut vm = VM::new();
+        let mut ictx = InterpreterContext::default();
+        let a = match p.interp.parse(0, &mut vm, &mut ictx, text) {
+            Ok(s) => format!("ok {:?}", s),
+            Err(e) => format!("err {}", e),
+        };
+        let mut ctr = 0usize;
+        let b = match p.data.parse(&mut vm, &mut ctr, text) {
+            Ok(_) => "ok".to_string(),
+            Err(e) => format!("err {}", e),
+        };
+        let st = Rc::new(RefCell::new(MiniState { records: String::new(), stdin: VecDeque::new() }));
+        let prev = sim_io::install(Box::new(MiniConsole(st.clone())));
+        let c = match p.printer.parse(&vm, text) {
+            Ok(_) => format!("ok {}", st.borrow().records),
+            Err(e) => format!("err {}", e),
+        };
+        let _ = sim_io::uninstall();
+        if let Some(pc) = prev {
+            sim_io::install(pc);
+        }
+        let mut ctx = PreprocessorContext::default();
+        let mut out = PreprocessorOutput::default();
+        let d = match p.pre.parse(&mut ctx, &mut out, text) {
+            Ok(_) => format!("ok {:?}", out),
+            Err(e) => format!("err {}", e),
+        };
+        format!("I[{}] D[{}] P[{}] A[{}] regs{:?} mem{:016x}", a, b, c, d, regs_of(&vm), fnv1a(&vm.mem[..]))
+    }));
+    match r {
+        Ok(s) => s,
+        Err(_) => {
+            let _ = sim_io::uninstall();
+            let site = crate::world::take_last_panic()
+                .map(|(_, f, l)| format!("{}:{}", crate::oracle::short_file(&f), l))
+                .unwrap_or_default();
+            format!("panic {}", site)
+        }
+    }
+}
+
+#[derive(Default, Clone, Debug)]
+pub struct MultiStats {
+    pub steps: u64,
+    pub switches: u64,
+    pub poison: u64,
+    pub creates: u64,
+    pub drops: u64,
+    pub switch_inside_rep: u64,
+    pub switch_inside_call: u64,
+    pub schedule_hash: u64,
+    pub thread_handoffs: u64,
+}
+
+pub struct MultiOutcome {
+    pub viols: Vec<Violation>,
+    pub stats: MultiStats,
+}
+
+fn compare(k: usize, solo: &MachResult, shared: &MachResult, how: &str, v: &mut Vec<Violation>) {
+    if solo.trace != shared.trace {
+        let first = solo.trace.iter().zip(shared.trace.iter()).position(|(a, b)| a != b).unwrap_or(solo.trace.len().min(shared.trace.len()));
+        v.push(Violation::new(
+            format!("C19:interleaving_changed{{trace;{}}}", how),
+            format!(
+                "machine {} behaves differently when interleaved over shared parser objects: first difference at step {} (alone: {:?}, interleaved: {:?}; {} vs {} steps)",
+                k, first, solo.trace.get(first), shared.trace.get(first), solo.trace.len(), shared.trace.len()
+            ),
+        ));
+    } else if solo.records != shared.records {
+        v.push(Violation::new(
+            format!("C19:interleaving_changed{{output;{}}}", how),
+            format!("machine {} prints something different when interleaved over shared parser objects", k),
+        ));
+    } else if solo.mem_digest != shared.mem_digest || solo.final_regs != shared.final_regs {
+        v.push(Violation::new(
+            format!("C19:interleaving_changed{{state;{}}}", how),
+            format!("machine {} ends in a different state when interleaved over shared parser objects", k),
+        ));
+    }
+}
+
+/// Sequential interleaving on one thread
+pub fn run_multi(spec: &MultiSpec) -> MultiOutcome {
+    if spec.threads == "baton" {
+        return run_multi_baton(spec);
+    }
+    let mut viols = Vec::new();
+    let mut st = MultiStats::default();
+    let solos: Vec<MachResult> = spec.machines.iter().map(|m| run_solo(m, spec.fuel)).collect();
+    let shared = Parsers::new();
+    let mut machs: Vec<Mach> = spec.machines.iter().map(Mach::new).collect();
+    let mut scratch: Vec<VM> = Vec::new();
+    let n = machs.len();
+    let mut pos = 0usize;
+    let mut rr = 0usize;
+    let mut last: Option<usize> = None;
+    let mut sched: Vec<u8> = Vec::new();
+    let total_budget = spec.fuel * n as u64 + 8;
+    let mut count = 0u64;
+    while machs.iter().any(|m| !m.done && m.steps < spec.fuel) && count < total_budget {
+        count += 1;
+        for (at, inj) in &spec.inject {
+            if *at == pos {
+                apply_inject(inj, &shared, &mut scratch, &mut viols, &mut st);
+            }
+        }
+        // who is next
+        let mut k = if pos < spec.order.len() { spec.order[pos] % n } else { rr % n };
+        let mut tries = 0;
+        while (machs[k].done || machs[k].steps >= spec.fuel) && tries < n {
+            k = (k + 1) % n;
+            tries += 1;
+        }
+        if pos >= spec.order.len() {
+            rr = k + 1;
+        }
+        pos += 1;
+        if last != Some(k) {
+            st.switches += 1;
+            if let Some(l) = last {
+                let code = machs[l].code.get(machs[l].idx).map(|s| s.as_str()).unwrap_or("");
+                if code.starts_with("rep") && !machs[l].done {
+                    st.switch_inside_rep += 1;
+                }
+                if machs[l].ictx.as_ref().map(|c| !c.call_stack.is_empty()).unwrap_or(false) {
+                    st.switch_inside_call += 1;
+                }
+            }
+        }
+        last = Some(k);
+        sched.push(k as u8);
+        machs[k].step(&shared);
+        st.steps += 1;
+    }
+    st.schedule_hash = fnv1a(&sched);
+    for (k, m) in machs.iter().enumerate() {
+        compare(k, &solos[k], &m.result(), "sequential", &mut viols);
+    }
+    MultiOutcome { viols, stats: st }
+}
+
+fn apply_inject(inj: &Inject, shared: &Parsers, scratch: &mut Vec<VM>, viols: &mut Vec<Violation>, st: &mut MultiStats) {
+    match inj {
+        Inject::PoisonLine(t) => {
+            st.poison += 1;
+            let used = poison(shared, t);
+            let fresh = poison(&Parsers::new(), t);
+            if used != fresh {
+                viols.push(Violation::new(
+                    "C19:parser_history_dependent",
+                    format!("line {:?} gives {:?} on parser objects that have processed other lines and {:?} on fresh ones", t, used, fresh),
+                ));
+            }
+        }
+        Inject::MachineCreate => {
+            st.creates += 1;
+            // dirty the heap first, so that a VM that is not zeroed would show
+            {
+                let junk: Vec<Vec<u8>> = (0..2).map(|_| vec![0xAAu8; MB]).collect();
+                assert_eq!(junk[1][777], 0xAA);
+            }
+            let vm = VM::new();
+            if let Err(what) = pristine(&vm) {
+                viols.push(Violation::new("C19:vm_not_pristine", format!("a new machine starts with {}", what)));
+            }
+            scratch.push(vm);
+        }
+        Inject::MachineDrop => {
+            st.drops += 1;
+            // scribble over the scratch machines before dropping them
+            for vm in scratch.iter_mut() {
+                vm.arch.ax = 0xDEAD;
+                vm.mem[0] = 0x55;
+                vm.mem[MB - 1] = 0x55;
+            }
+            scratch.clear();
+        }
+    }
+}
+
+struct Baton {
+    /// Some(k): machine k may take one step; None: the scheduler decides
+    turn: Mutex<(Option<usize>, bool)>,
+    cv: Condvar,
+}
+
+/// Same schedule, but every machine lives on its own real thread; exactly one thread runs
+/// at any time and the hand-over order is the simulator's, so the execution replays.
+pub fn run_multi_baton(spec: &MultiSpec) -> MultiOutcome {
+    let mut viols = Vec::new();
+    let mut st = MultiStats::default();
+    let solos: Vec<MachResult> = spec.machines.iter().map(|m| run_solo(m, spec.fuel)).collect();
+    let shared = Arc::new(Parsers::new());
+    let n = spec.machines.len();
+    let baton = Arc::new(Baton { turn: Mutex::new((None, false)), cv: Condvar::new() });
+    // per machine: (done, steps) as seen by the scheduler
+    let status: Arc<Mutex<Vec<(bool, u64)>>> = Arc::new(Mutex::new(vec![(false, 0); n]));
+    let mut handles = Vec::new();
+    for (k, m) in spec.machines.iter().enumerate() {
+        let m = m.clone();
+        let shared = shared.clone();
+        let baton = baton.clone();
+        let status = status.clone();
+        let fuel = spec.fuel;
+        handles.push(
+            std::thread::Builder::new()
+                .stack_size(16 << 20)
+                .spawn(move || {
+                    crate::world::install_panic_hook();
+                    let mut mach = Mach::new(&m);
+                    loop {
+                        let mut g = baton.turn.lock().unwrap();
+                        while g.0 != Some(k) && !g.1 {
+                            g = baton.cv.wait(g).unwrap();
+                        }
+                        if g.1 {
+                            break;
+                        }
+                        drop(g);
+                        mach.step(&shared);
+                        {
+                            let mut s = status.lock().unwrap();
+                            s[k] = (mach.done || mach.steps >= fuel, mach.steps);
+                        }
+                        let mut g = baton.turn.lock().unwrap();
+                        g.0 = None;
+                        baton.cv.notify_all();
+                    }
+                    mach.result()
+                })
+                .unwrap(),
+        );
+    }
+    let mut scratch: Vec<VM> = Vec::new();
+    let mut pos = 0usize;
+    let mut rr = 0usize;
+    let mut sched: Vec<u8> = Vec::new();
+    let mut last = None;
+    let total_budget = spec.fuel * n as u64 + 8;
+    let mut count = 0;
+    loop {
+        let stv = status.lock().unwrap().clone();
+        if stv.iter().all(|s| s.0) || count >= total_budget {
+            break;
+        }
+        count += 1;
+        for (at, inj) in &spec.inject {
+            if *at == pos {
+                apply_inject(inj, &shared, &mut scratch, &mut viols, &mut st);
+            }
+        }
+        let mut k = if pos < spec.order.len() { spec.order[pos] % n } else { rr % n };
+        let mut tries = 0;
+        while stv[k].0 && tries < n {
+            k = (k + 1) % n;
+            tries += 1;
+        }
+        if pos >= spec.order.len() {
+            rr = k + 1;
+        }
+        pos += 1;
+        if last != Some(k) {
+            st.switches += 1;
+            st.thread_handoffs += 1;
+        }
+        last = Some(k);
+        sched.push(k as u8);
+        // hand the baton to thread k and wait until it gives it back
+        let mut g = baton.turn.lock().unwrap();
+        g.0 = Some(k);
+        baton.cv.notify_all();
+        while g.0.is_some() {
+            g = baton.cv.wait(g).unwrap();
+        }
+        drop(g);
+        st.steps += 1;
+    }
+    {
+        let mut g = baton.turn.lock().unwrap();
+        g.1 = true;
+        baton.cv.notify_all();
+    }
+    st.schedule_hash = fnv1a(&sched);
+    for (k, h) in handles.into_iter().enumerate() {
+        match h.join() {
+            Ok(r) => compare(k, &solos[k], &r, "baton_threads", &mut viols),
+            Err(_) => viols.push(Violation::new("C19:thread_died", format!("thread of machine {} died", k))),
+        }
+    }
+    let _ = R_AX;
+    MultiOutcome { viols, stats: st }
 }
